@@ -28,6 +28,9 @@ PROPS = {
                    "normal paths (total-error cache, CovMat caches), value writers must reset the source references of the written axis, raw reads of "
                    "lazily recomputed model values must be dominated by the stale check, the total is summed after the lazy values are brought up to date, "
                    "disabled sources are skipped wherever covariances are accumulated, lazy getters test the field they return."),
+    "C17": ("c17", "Dominance of every print of stored parameter numbers by the refresh of that fit's formatters (same iteration scope, through callers); copy "
+                   "structure of the refresh; fixed flag set / tested; key -> live property tables of result dictionary, report and preface; canonical forms of the "
+                   "decimal-place formulas; language rule on the LaTeX exponent regular expression (must consume every double exponent)."),
     "C19": ("c19", "Path rule R-A over every function executable after construction on 31 anchor classes: no rejection point (explicit escaping raise, "
                    "same-object call that may reject, or call into the validator table) is reachable on the CFG after a node with a state write "
                    "(interprocedural write effects, ignoring getter-internal refreshes and listed cache/scratch fields), unless a handler rolls the write "
